@@ -3,6 +3,7 @@ import Pandora.Model.C13Ammo
 import Pandora.Model.C13Funcs
 import Pandora.Model.C13Multi
 import Pandora.Model.C13Jsonline
+import Pandora.Model.C13Grpc
 import Pandora.Spec.C13
 
 /-
@@ -247,16 +248,6 @@ def jsonlineModel (pre : Bool) (multi : Option (Nat × Nat)) (data : Bytes) : Op
     let r := jsonlineRun true src pre passes limit
     if r == ctorErr then some "n=0 e= end=ctor-err:other" else some (renderRun false r)
 
-/-- grpc/json: the file's scanner lines; `none` when a line comes near the scanner's buffer size or when
-limit / passes bookkeeping (C08's subject) is involved -/
-def grpcShape (kv : List (String × String)) (data : Bytes) : Option (List Bytes) :=
-  let passes := getS kv "passes"
-  let limit := getS kv "limit"
-  if !(passes == "" || passes == "1") || !(limit == "" || limit == "0") then none
-  else
-    let ls := rawLines data
-    if ls.any (fun l => l.length ≥ 60000) then none else some ls
-
 /-- a line that certainly does not fit `bufio.Scanner`'s buffer (64 KiB), with only clearly shorter lines before it:
 its index. The run must then end with an error after at most the lines before it, with and without `continue_on_error`. -/
 def grpcTooLong (kv : List (String × String)) (data : Bytes) : Option Nat :=
@@ -269,9 +260,132 @@ def grpcTooLong (kv : List (String × String)) (data : Bytes) : Option Nat :=
     | some i => if ((ls[i]?).getD []).length ≥ 66000 then some i else none
     | none => none
 
+/-! ### grpc/json, round 3: lines written in a small safe subset of JSON are decoded here (tag, call: strings without
+escapes; metadata: an object of such strings; payload: an object of such strings and small natural numbers), so that the
+observation - every entry with all its fields, under passes / limit / chosen cases / a dirty pool - is predicted entry by
+entry. `some none` = jsoniter certainly refuses the line, `none` = the driver abstains. -/
+
+inductive GV where
+  | str (s : Bytes)
+  | num (s : Bytes)
+
+inductive GTop where
+  | str (s : Bytes)
+  | obj (kvs : List (Bytes × GV))
+
+def isDigit (b : UInt8) : Bool := 48 ≤ b && b ≤ 57
+
+/-- a string, or a natural number of at most nine digits without a leading zero -/
+def pvG (s : Bytes) : P GV :=
+  match s with
+  | [] => .trunc
+  | 34 :: r => (match pStr r [] with | .ok v r' => .ok (.str v) r' | .trunc => .trunc | .unk => .unk)
+  | b :: _ =>
+    if isDigit b then
+      let ds := s.takeWhile isDigit
+      let rest := s.dropWhile isDigit
+      if ds.length > 9 || (ds.length > 1 && b == 48) then .unk
+      else if rest.isEmpty then .trunc
+      else .ok (.num ds) rest
+    else .unk
+
+def pvGTop (s : Bytes) : P GTop :=
+  match s with
+  | [] => .trunc
+  | 34 :: r => (match pStr r [] with | .ok v r' => .ok (.str v) r' | .trunc => .trunc | .unk => .unk)
+  | 123 :: r => (match pObj pvG r with | .ok kvs r' => .ok (.obj kvs) r' | .trunc => .trunc | .unk => .unk)
+  | _ => .unk
+
+def bytesLe : Bytes → Bytes → Bool
+  | [], _ => true
+  | _ :: _, [] => false
+  | a :: as, b :: bs => if a < b then true else if b < a then false else bytesLe as bs
+
+def insertKV {α : Type} (p : Bytes × α) : List (Bytes × α) → List (Bytes × α)
+  | [] => [p]
+  | q :: rest => if bytesLe p.1 q.1 then p :: q :: rest else q :: insertKV p rest
+
+def sortKV {α : Type} (l : List (Bytes × α)) : List (Bytes × α) := l.foldr insertKV []
+
+def grpcFieldNames : List Bytes := [str "tag", str "call", str "metadata", str "payload"]
+
+def renderGV : GV → String
+  | .str s => "s" ++ hexB s
+  | .num s => "n" ++ hexB s
+
+/-- what `Unmarshal(line, &ammo.Ammo{})` makes of an object of the safe subset; `none` = the driver abstains -/
+def grpcFieldsOf (kvs : List (Bytes × GTop)) : Option GFields :=
+  if !distinctKeys kvs then none
+  else if kvs.any (fun p => !grpcFieldNames.contains p.1) then none
+  else
+    let strOf (k : String) : Option Bytes :=
+      match kvs.find? (fun p => p.1 == str k) with
+      | none => some []
+      | some (_, .str v) => some v
+      | some (_, .obj _) => none
+    let objOf (k : String) : Option (List (Bytes × GV)) :=
+      match kvs.find? (fun p => p.1 == str k) with
+      | none => some []
+      | some (_, .obj o) => if distinctKeys o then some o else none
+      | some (_, .str _) => none
+    match strOf "tag", strOf "call", objOf "metadata", objOf "payload" with
+    | some tag, some call, some md, some pl =>
+      if md.any (fun p => match p.2 with | .num _ => true | .str _ => false) then none
+      else
+        let mdS := String.intercalate "." ((sortKV md).map fun p => s!"{hexB p.1}:{match p.2 with | .str v => hexB v | .num v => hexB v}")
+        let plS := String.intercalate "." ((sortKV pl).map fun p => s!"{hexB p.1}:{renderGV p.2}")
+        if tag.length > 100 || call.length > 100 || mdS.length > 200 || plS.length > 200 then none
+        else some ⟨tag, call, str mdS, str plS⟩
+    | _, _, _, _ => none
+
+/-- the jsoniter oracle on one scanner token (after `dropCR`) -/
+def grpcLineOf (l : Bytes) : Option (Option GFields) :=
+  match skipJws l with
+  | [] => some none
+  | 123 :: r =>
+    match pObj pvGTop r with
+    | .ok kvs rest =>
+      if !(skipJws rest).isEmpty then some none     -- "there are bytes left after unmarshal"
+      else (grpcFieldsOf kvs).map some
+    | .trunc => some none
+    | .unk => none
+  | 110 :: _ => none                                 -- `null` leaves the struct as it is
+  | _ => some none                                   -- "expect { or n"
+
+def renderGObj (o : GObj) : String :=
+  let asc (b : Bytes) : String := String.ofList (b.map fun c => Char.ofNat c.toNat)
+  s!"{hexB o.f.tag}/{hexB o.f.call}/{asc o.f.metadata}/{asc o.f.payload}" ++
+    (if o.isInvalid then ":I" else "")
+
+/-- the object a dirty pool hands out: an earlier entry, invalidated -/
+def staleObj : GObj := ⟨⟨str "STALE", str "stale.Svc/Call", str "7374616c65:6d64", str "stale"⟩, 1000, true⟩
+
+def grpcChosen (kv : List (String × String)) : Option (Bytes → Bool) :=
+  let cc := getS kv "cc"
+  if cc == "" then some (fun _ => true)
+  else ((cc.splitOn ",").mapM fun c => if c == "-" then some [] else bytesOfHex c).map fun cs => fun t => cs.contains t
+
+def grpcOpts (kv : List (String × String)) : Nat × Nat :=
+  (if getS kv "passes" == "" then 1 else (getN? kv "passes").getD 1, (getN? kv "limit").getD 0)
+
+/-- the model's observation, when every line of the file is decided here -/
+def grpcModel (kv : List (String × String)) (data : Bytes) : Option String := do
+  let ls := rawLines data
+  -- the exact boundary of "token too long" is bufio.Scanner's: a line is clearly shorter or certainly too long (never decoded)
+  if ls.any (fun l => l.length ≥ 60000 && l.length < 66000) then none
+  let oracle ← (ls.filter fun l => l.length < 60000).mapM fun l => (grpcLineOf (dropCR l)).map fun r => (dropCR l, r)
+  let json (l : Bytes) : Option GFields := ((oracle.find? fun p => p.1 == l).map (·.2)).join
+  let chosen ← grpcChosen kv
+  let (passes, limit) := grpcOpts kv
+  let fuel := if passes == 0 && limit == 0 then 1 else gFuel limit passes
+  -- the pool of the model is the worst one: every `Get` answers an invalidated object that carries an earlier entry
+  let r := gStart true (getS kv "coe" == "1") json chosen limit passes (fun _ => staleObj) ls fuel 0 0 0
+  if r.end_ == .fuel then none
+  some s!"n={r.out.length} e={String.intercalate "," (r.out.map renderGObj)} end={endStr r.end_}"
+
 def grpcVerdict (kv : List (String × String)) (data : Bytes) (impl : String) : String :=
-  match grpcShape kv data with
-  | none =>
+  let ls := rawLines data
+  if ls.any (fun l => l.length ≥ 60000) then
     match grpcTooLong kv data, crashVerdict "grpc/json provider" impl with
     | some i, none =>
       let n := (kvOf impl "n").toNat?.getD 0
@@ -280,9 +394,38 @@ def grpcVerdict (kv : List (String × String)) (data : Bytes) (impl : String) : 
       else if n > i then s!"fail:prefix:grpc/json provider delivered {n} entries, only {i} lines stand before the over-long one"
       else "ok"
     | _, _ => judge "grpc/json provider" none impl
-  | some ls =>
+  else if getS kv "cc" != "" then
+    -- chosen cases: which lines are delivered depends on their tags (jsoniter's business on lines not decided here)
+    match crashVerdict "grpc/json provider" impl with
+    | some v => v
+    | none =>
+      if getS kv "coe" != "1" && containsSub impl ":I" then
+        "fail:outcome:grpc/json provider delivered an invalidated ammo without continue_on_error"
+      else "ok"
+  else
     let blank (i : Nat) : Bool := (trimSpace (dropCR ((ls[i]?).getD []))).isEmpty
-    grpcJudge (getS kv "coe" == "1") ls.length blank impl
+    let arr := ls.toArray
+    let firstSame (i : Nat) : Nat := (arr.findIdx? fun l => dropCR l == dropCR (arr.getD i [])).getD i
+    let (passes, limit) := grpcOpts kv
+    grpcMultiJudge (getS kv "coe" == "1") ls.length passes limit blank firstSame impl
+
+/-- the model decided every line: compare entry by entry and name the first entry that differs -/
+def grpcExactVerdict (m impl : String) : String :=
+  match crashVerdict "grpc/json provider" impl with
+  | some v => v
+  | none =>
+    if m == impl then "ok"
+    else
+      let entries (o : String) : Array String := (if (kvOf o "n").toNat?.getD 0 == 0 then [] else (kvOf o "e").splitOn ",").toArray
+      let em := entries m
+      let ei := entries impl
+      match (List.range (min em.size ei.size)).find? fun i => em.getD i "" != ei.getD i "" with
+      | some i =>
+        s!"fail:prefix:grpc/json provider delivered entry {i + 1} as {(ei.getD i "").take 70}, its line says {(em.getD i "").take 70}: an entry is not delivered as its own line says"
+      | none =>
+        if isErrObs m && !isErrObs impl then s!"fail:accepted:grpc/json provider malformed input accepted, expected end={kvOf m "end"} after {em.size} entries"
+        else if em.size != ei.size then s!"fail:skipped:grpc/json provider delivered {ei.size} entries, expected {em.size} end={kvOf m "end"}"
+        else s!"fail:outcome:grpc/json provider ended with {kvOf impl "end"}, expected end={kvOf m "end"}"
 
 /-! ### scenario weights, randString -/
 
@@ -423,6 +566,7 @@ def model (kv : List (String × String)) : Option (Option String × String) := d
     let hdrs ← (splitList (getS kv "hdrs")).mapM bytesOfHex
     if fmt != "grpcjson" && hdrs.any (fun h => !(decodeHeader h).isOk) then
       pure (some "n=0 e= end=ctor-err:hdr", s!"{fmt} provider")
+    else if fmt == "grpcjson" then pure (grpcModel kv data, "grpc/json provider")
     else if fmt == "jsonline" then pure (jsonlineModel (getS kv "pre" == "1") multi data, "jsonline provider")
     else pure (ammoModel fmt (getS kv "pre" == "1") multi data, s!"{fmt} provider")
   | "genjson" =>
@@ -566,7 +710,10 @@ def handle : Handler := fun input impl =>
     let verdict := match ((randIntVerdict kv impl).orElse (fun _ => pfxVerdict kv impl)).orElse (fun _ => fltVerdict kv impl) with
       | some v => v
       | none =>
-        if isGrpc then grpcVerdict kv ((bytesOfHex (getS kv "hex")).getD []) impl
+        if isGrpc then
+          match m with
+          | some mo => grpcExactVerdict mo impl
+          | none => grpcVerdict kv ((bytesOfHex (getS kv "hex")).getD []) impl
         else judge kind m impl
     let verdict := kindKey kv impl verdict
     -- a case the harness refused to run (memory guard) has no observation to compare with;
